@@ -15,25 +15,13 @@ import RdfModel.Proofs.C11Rdfa
 import RdfModel.Proofs.C11Microdata
 import RdfModel.Proofs.C11Chain
 import RdfModel.Spec.GraphIso
-import RdfModel.Gen.HtmlFacts
 namespace RdfModel.C11
 open RdfModel RdfModel.Desc
 
 /-! ## A. the combined decoder -/
 
-/-- T2: `(*Decoder).init` of htmldefaults hands none of the three sub-decoder constructors anything that mentions a
-    blank-node factory; each sub-decoder, left alone, makes a factory of its own (htmljsonld: one per script
-    element); the extractor met no code shape it does not understand. -/
-theorem factories_not_shared :
-    Gen.HtmlFacts.subFacts.map (·.sub) = [.jsonld, .microdata, .rdfa] ∧
-    Gen.HtmlFacts.subFacts.all (fun f => !f.passesFactory && f.defaultFresh) = true ∧
-    Gen.HtmlFacts.jsonldDecoderPerScript = true ∧
-    Gen.HtmlFacts.unknowns = [] := by decide
-
-/-- T2: the iterator slice is `[jsonld, microdata, rdfa]`, and Microdata is configured with the item-type resolver
-    (the vocabulary rule Spec.MicrodataFragment describes). -/
-theorem chain_order :
-    Gen.HtmlFacts.chainOrder = [.jsonld, .microdata, .rdfa] ∧ Gen.HtmlFacts.microdataResolverIsItemtype = true := by decide
+/- The T2 facts (`factories_not_shared`, `chain_order`) are in Props/C11Facts.lean: they are re-proved against the
+   regenerated Gen/HtmlFacts.lean on every run and must not take the other theorems down with them. -/
 
 /-- Union semantics of the iterator chain: calling `Next()` until it returns false yields exactly the statements
     of the nested decoders one after the other, up to and including the first nested decoder that ends in an
@@ -173,14 +161,6 @@ theorem jsonld_script_extracted (place : Nat) (headNoise before after : List Spe
     (h1 : Html.scriptsKids headNoise = []) (h2 : Html.scriptsKids before = []) (h3 : Html.scriptsKids after = []) :
     Html.scriptsNode (Html.embed place headNoise before after text) = [text] :=
   Html.scripts_embed place headNoise before after text h1 h2 h3
-
-/-- Non-vacuity of `rdfa_roundtrip`'s hypothesis in the initial context the library uses. -/
-example : Spec.Rdfa.expressible
-    (Spec.Rdfa.bodyCtx (asc "http://ex.org/dir/page.html#x") Gen.HtmlFacts.initialPrefixes Gen.HtmlFacts.terms11 {}).env
-    ([⟨.iri (asc "http://ex.org/a"), asc "http://schema.org/name", .lit (asc "A b") xsdString none⟩,
-      ⟨.bnode 3, asc "urn:p:x", .iri (asc "mailto:a@b.example")⟩,
-      ⟨.iri (asc "http://ex.org/a"), asc "http://p.example/q", .lit (asc "x") rdfLangString (some (asc "en"))⟩] :
-        List (Triple Nat)) = true := by decide
 
 /-- Non-vacuity of `microdata_roundtrip_partial`'s hypothesis. -/
 example : Spec.Microdata.expressible (asc "http://ex.org/dir/page.html")
